@@ -55,8 +55,9 @@ def gen_cases(rng, tier, version):
     cases = [{"version": version, "turns": turns, "faults": [], "verdicts": p} for p in pats]
     singles = [[f] for f in faults]
     pairs = [list(p) for p in itertools.combinations(faults, 2)]
+    single_pats = pats if tier == "thorough" else pats[:1 + turns * len(RAIL_SITES)]   # quick: at most one rejection
     for fs in singles:
-        for p in pats:
+        for p in single_pats:
             cases.append({"version": version, "turns": turns, "faults": [list(f) for f in fs], "verdicts": p})
     for fs in pairs:
         cases.append({"version": version, "turns": turns, "faults": [list(f) for f in fs], "verdicts": {}})
